@@ -14,6 +14,13 @@
 //   C06/cs-operand-leak        operands of one Parse call show up in the next
 //   C06/parsers-disagree       both parsers accept an operand and give different values
 //   C06/ref-lookahead          "a b R" / "a b" sequences not grouped as written
+//   C06/core-shortread-roundtrip-<type>, C06/ref-lookahead-shortread
+//                              the same bytes through an io.Reader with short reads ≠ tree
+//   C06/core-large-roundtrip-<type>, C06/core-large-shortread-<type>
+//                              a print longer than the I/O buffer (slid byte by byte over
+//                              the 4096-byte multiples) parsed back ≠ tree   (boundary.go)
+//   C06/cs-large-grouping, C06/cs-large-roundtrip-<type>
+//                              the same for operator programs
 //   C06/panic, C06/hang
 package c06
 
@@ -122,6 +129,35 @@ type runner struct {
 	c *hx.Ctx
 }
 
+// witnesses keeps the first failing case of EVERY oracle key. hx keeps at most 20
+// failing cases per run in all, so with many fine-grained keys the key that the
+// driver reports may otherwise be left without its replayable input.
+var witnesses = map[string]hx.Failure{}
+
+// remember is c.Check that also keeps the first witness of each key.
+func remember(c *hx.Ctx, key string, ok bool, kase interface{}, detail func() string) bool {
+	res := c.Check(key, ok, kase, detail)
+	if !ok {
+		if _, seen := witnesses[key]; !seen {
+			witnesses[key] = hx.Failure{Key: key, Case: kase, Detail: detail()}
+		}
+	}
+	return res
+}
+
+// keepWitnesses makes sure every failing key has a replayable case in the report.
+func keepWitnesses(c *hx.Ctx) {
+	have := map[string]bool{}
+	for _, f := range c.Rep.Failures {
+		have[f.Key] = true
+	}
+	for _, k := range hx.SortedKeys(c.Rep.FailureCount) {
+		if w, ok := witnesses[k]; ok && !have[k] {
+			c.Rep.Failures = append(c.Rep.Failures, w)
+		}
+	}
+}
+
 func short(b []byte) string {
 	if len(b) > 160 {
 		return fmt.Sprintf("%q…(%d bytes)", b[:160], len(b))
@@ -156,7 +192,7 @@ func (x runner) checkObjects(in []byte, exp []*node, label string, keyPrefix str
 	default:
 		key = keyPrefix + kindName[exp[0].k]
 	}
-	c.Check(key, d == "", map[string]interface{}{"kind": "obj", "input": hx.Hex(in), "expect": want, "key": key, "policy": label},
+	remember(c, key, d == "", map[string]interface{}{"kind": "obj", "input": hx.Hex(in), "expect": want, "key": key, "policy": label},
 		func() string { return fmt.Sprintf("policy %s: wrote %s, parser read %s from %s", label, want, o.line, short(in)) })
 	return o
 }
@@ -188,12 +224,12 @@ func (x runner) checkProgram(in []byte, exp []operation, label string, emit bool
 	// first operand kind that the parser cannot read alone, else as grouping
 	if !o.ok {
 		key := "C06/cs-grouping"
-		c.Check(key, false, kase(key), func() string {
+		remember(c, key, false, kase(key), func() string {
 			return fmt.Sprintf("policy %s: legal content stream rejected: %s (wrote %s)", label, short(in), want)
 		})
 		return o
 	}
-	c.Check("C06/cs-grouping", grouping, kase("C06/cs-grouping"), func() string {
+	remember(c, "C06/cs-grouping", grouping, kase("C06/cs-grouping"), func() string {
 		return fmt.Sprintf("policy %s: wrote %s, parser grouped %s from %s", label, want, o.line, short(in))
 	})
 	if !grouping {
@@ -205,7 +241,7 @@ func (x runner) checkProgram(in []byte, exp []operation, label string, emit bool
 		if d == "" {
 			key = "C06/cs-roundtrip"
 		}
-		c.Check(key, d == "", kase(key), func() string {
+		remember(c, key, d == "", kase(key), func() string {
 			return fmt.Sprintf("policy %s: operation %d wrote %s, parser read %s from %s", label, i, opsLine(exp[i:i+1]), opsLine(o.ops[i:i+1]), short(in))
 		})
 	}
@@ -228,7 +264,7 @@ func (x runner) checkAgree(operand []byte) {
 	}
 	c.Count("agree:both-accept")
 	av, bv := a.objs[0].sexpr(), b.ops[0].operands[0].sexpr()
-	c.Check("C06/parsers-disagree", av == bv, map[string]interface{}{"kind": "agree", "input": hx.Hex(operand)}, func() string {
+	remember(c, "C06/parsers-disagree", av == bv, map[string]interface{}{"kind": "agree", "input": hx.Hex(operand)}, func() string {
 		return fmt.Sprintf("operand %s: document parser %s, content-stream parser %s", short(operand), av, bv)
 	})
 }
@@ -448,8 +484,8 @@ func (x runner) runBatch(cases []rawCase) {
 				} else if rc.K == "agree" {
 					x.agreeLine(in, strings.TrimPrefix(f[2], "A "))
 				} else {
-					c.Check("C06/panic", true, nil, nil)
-					c.Check("C06/hang", true, nil, nil)
+					remember(c, "C06/panic", true, nil, nil)
+					remember(c, "C06/hang", true, nil, nil)
 					c.Op("c06."+rc.K+" "+rc.In, f[2])
 					c.Count("raw-" + rc.K + ":" + lastWord(f[2]))
 				}
@@ -511,7 +547,7 @@ func (x runner) agreeLine(in []byte, line string) {
 		return
 	}
 	c.Count("raw-agree:both-accept")
-	c.Check("C06/parsers-disagree", cf[0] == operand, map[string]interface{}{"kind": "agree", "input": hx.Hex(in)}, func() string {
+	remember(c, "C06/parsers-disagree", cf[0] == operand, map[string]interface{}{"kind": "agree", "input": hx.Hex(in)}, func() string {
 		return fmt.Sprintf("operand %s: document parser %s, content-stream parser %s", short(in), cf[0], operand)
 	})
 }
@@ -544,7 +580,8 @@ func stage(n int) bool {
 
 func Run(c *hx.Ctx) {
 	x := runner{c}
-	c.Rep.Rule = "object trees: every container skeleton to depth 4 (3 in quick) with ≤2 children per array/dict, leaves cycled over a 3-atom alphabet per type, plus random trees to depth 8 with strings/names over all 256 bytes, int64 limits and dyadic reals; each printed by an ISO 32000-1 §7.2-7.3 printer under 10 spelling policies (minimal/maximal white space, comments, CR/LF/CRLF, literal/escaped/octal/hex strings, #-escaped names, random mix); random operator programs (≤60 operations, all operand types, incl. ' \" T* d0); integer/reference sequences; plus a malformed stream (mutated prints and token soup) compared with the model by value-or-error only. non-trivial = parsed without error to a non-empty result."
+	defer keepWitnesses(c)
+	c.Rep.Rule = "object trees: every container skeleton to depth 4 (3 in quick) with ≤2 children per array/dict, leaves cycled over a 3-atom alphabet per type, plus random trees to depth 8 with strings/names over all 256 bytes, int64 limits and dyadic reals; each printed by an ISO 32000-1 §7.2-7.3 printer under 10 spelling policies (minimal/maximal white space, comments, CR/LF/CRLF, literal/escaped/octal/hex strings, #-escaped names, random mix); random operator programs (≤60 operations, all operand types, incl. ' \" T* d0); integer/reference sequences; every document-level input also through io.Readers with short reads (1,2,3,7,4095,… byte pieces, random schedules, last piece with io.EOF); large arrays/dictionaries/object sequences/nested containers/long strings and operator programs whose print crosses 1-3 multiples of the 4096-byte I/O buffer, each slid by a white-space or comment prefix of 0..K-1 bytes (K=40 quick, 130 thorough) so that every token and separator kind lies across offsets 4095/4096, 8191/8192, 12287/12288 in turn (distribution buckets straddle-*); plus a malformed stream (mutated prints and token soup) compared with the model by value-or-error only. non-trivial = parsed without error to a non-empty result."
 
 	// 1. exhaustive container skeletons ------------------------------------------------
 	depth := c.N(3, 4)
@@ -568,6 +605,8 @@ func Run(c *hx.Ctx) {
 			in := printObjects(p, []*node{t})
 			o := x.checkObjects(in, []*node{t}, p.label, "C06/core-roundtrip-", true)
 			c.Case("t:"+t.sexpr()+p.label, o.end == "eof")
+			x.checkObjectsVia(in, []*node{t}, objsLine([]*node{t}, "eof"), fixedScheds[(si+len(p.label))%len(fixedScheds)],
+				p.label, "C06/core-shortread-roundtrip-", false, false)
 			c.Count("policy:" + p.label)
 			c.Count(fmt.Sprintf("tree-depth:%d", t.depth()))
 			// the same skeleton as a content-stream operand (no references there)
@@ -630,6 +669,18 @@ func Run(c *hx.Ctx) {
 		o := x.checkObjects(in, ts, p.label, "C06/core-roundtrip-", true)
 		c.Case("r:"+objsLine(ts, ""), o.end == "eof")
 		c.Count("random-tree-policy:" + p.label)
+		{
+			// the same bytes through a reader with short reads (its own generator, so
+			// that the stream of cases above does not depend on it)
+			rs := randSched(r.Fork(77))
+			x.checkObjectsVia(in, ts, objsLine(ts, "eof"), rs, p.label, "C06/core-shortread-roundtrip-", false, i%2 == 0)
+			if i%4 == 0 {
+				if l := runLexVia(in, rs); !abnormal(c, l, "lex", in) {
+					c.Op("c06.lex "+hx.Hex(in), l.line)
+				}
+			}
+			c.Count(fmt.Sprintf("shortread-first-chunk:%s", chunkBucket(rs)))
+		}
 		if !ts[0].hasRef() {
 			x.checkAgree(printObjects(p, ts[:1]))
 		}
@@ -666,6 +717,7 @@ func Run(c *hx.Ctx) {
 		in := printObjects(p, ts)
 		o := x.checkObjects(in, ts, p.label, "C06/ref-lookahead", true)
 		c.Case("l:"+objsLine(ts, ""), o.end == "eof")
+		x.checkObjectsVia(in, ts, objsLine(ts, "eof"), randSched(r.Fork(77)), p.label, "C06/ref-lookahead-shortread", true, false)
 	}
 
 	// 5. operator programs -----------------------------------------------------------------
@@ -698,6 +750,14 @@ func Run(c *hx.Ctx) {
 		first = append(append(first, ' '), printObjects(p, dangling)...)
 		second := randProgram(r, 3)
 		x.checkLeak(first, printOps(p, second), second)
+	}
+
+	// 8./9. prints longer than the I/O buffer, slid over its multiples (boundary.go) -------------
+	if stage(8) {
+		x.stageLargeObjects()
+	}
+	if stage(9) {
+		x.stageLargePrograms()
 	}
 
 	// 7. malformed / raw stream: value-or-error against the model only ---------------------------
@@ -751,6 +811,21 @@ func Run(c *hx.Ctx) {
 	x.runBatch(raws)
 }
 
+func chunkBucket(rs readerSpec) string {
+	if len(rs.chunks) == 0 {
+		return "full"
+	}
+	switch n := rs.chunks[0]; {
+	case n == 1:
+		return "1"
+	case n < 8:
+		return "2-7"
+	case n < ioBlock:
+		return "8-4095"
+	}
+	return ">=4096"
+}
+
 func (s *shape) depthOf() int {
 	if s.leaf {
 		return 1
@@ -774,7 +849,7 @@ func (x runner) checkLeak(first, second []byte, exp []operation) {
 		return
 	}
 	want := opsLine(exp)
-	c.Check("C06/cs-operand-leak", b.line == want,
+	remember(c, "C06/cs-operand-leak", b.line == want,
 		map[string]interface{}{"kind": "leak", "first": hx.Hex(first), "input": hx.Hex(second), "expect": want},
 		func() string {
 			return fmt.Sprintf("after parsing %s, parsing %s gave %s, want %s", short(first), short(second), b.line, want)
@@ -795,9 +870,17 @@ func Replay(c *hx.Ctx, kase map[string]interface{}) {
 	expect, _ := kase["expect"].(string)
 	key, _ := kase["key"].(string)
 	fail := func(k string, o outcome) {
-		c.Check(k, false, kase, func() string { return fmt.Sprintf("input %s: expected %s, got %s", short(in), expect, o.line) })
+		remember(c, k, false, kase, func() string { return fmt.Sprintf("input %s: expected %s, got %s", short(in), expect, o.line) })
 	}
 	switch kind {
+	case "objr":
+		o := runObjVia(in, specFromCase(kase))
+		if abnormal(c, o, "obj", in) {
+			return
+		}
+		if expect != "" && o.line != expect {
+			fail(key, o)
+		}
 	case "obj", "lex":
 		o := runObj(in)
 		if kind == "lex" {
